@@ -245,25 +245,33 @@ class Gen:
 
     def finish(self):
         r = self.rng
-        if r.random() < 0.7:
-            # mostly-valid bias: consume what this function owns and has not used yet
-            for e in sorted(self.env):
-                borrowed = e.startswith("qb") or e.startswith("ab") or e.startswith("sb")
-                if not borrowed and self.env[e] not in self.used and r.random() < 0.9:
-                    self.body.append(f"discard({e})")
-                    self.use(self.env[e])
         kind = r.choice(["none", "none", "none", "q", "tuple"])
         names = sorted(e for e in self.env if "[" not in e and "." not in e) or sorted(self.env)
+        if r.random() < 0.85:
+            names = [e for e in names if self.env[e] not in self.used and not e.startswith("qb")]
+        rets = []
         if kind == "q" and names:
-            e = r.choice(names)
-            self.body.append(f"return {e}")
-            self.use(self.env[e])
+            rets = [r.choice(names)]
+        elif kind == "tuple" and names:
+            a = r.choice(names)
+            rest = [e for e in names if self.env[e] != self.env[a]]
+            rets = [a, r.choice(rest) if rest and r.random() < 0.85 else r.choice(names)]
+        if r.random() < 0.7:
+            # mostly-valid bias: consume what this function owns, has not used yet and does not return
+            keep = {self.env[e] for e in rets}
+            for e in sorted(self.env):
+                borrowed = e.startswith("qb") or e.startswith("ab") or e.startswith("sb")
+                if not borrowed and self.env[e] not in self.used and self.env[e] not in keep and r.random() < 0.9:
+                    self.body.append(f"discard({e})")
+                    self.use(self.env[e])
+        if len(rets) == 1:
+            self.body.append(f"return {rets[0]}")
+            self.use(self.env[rets[0]])
             ret = "qubit"
-        elif kind == "tuple" and len(names) >= 1:
-            a, b = r.choice(names), r.choice(names)
-            self.body.append(f"return {a}, {b}")
-            self.use(self.env[a])
-            self.use(self.env[b])
+        elif len(rets) == 2:
+            self.body.append(f"return {rets[0]}, {rets[1]}")
+            self.use(self.env[rets[0]])
+            self.use(self.env[rets[1]])
             self.use(self.create(0, 0))
             ret = "tuple[qubit, qubit]"
         else:
